@@ -178,13 +178,16 @@ func (s *Server) goLive(
 		outputType = JSON
 	}
 	var livemsg []byte
+	var wrapRESP bool
 	switch outputType {
 	case JSON:
-		livemsg = redcon.AppendBulkString(nil, `{"ok":true,"live":true}`)
+		// framed by the transport, like the notifications that follow
+		livemsg = []byte(`{"ok":true,"live":true}`)
+		wrapRESP = true
 	case RESP:
 		livemsg = redcon.AppendOK(nil)
 	}
-	if err := writeLiveMessage(conn, livemsg, false, connType, websocket); err != nil {
+	if err := writeLiveMessage(conn, livemsg, wrapRESP, connType, websocket); err != nil {
 		return nil // nil return is fine here
 	}
 	for {
